@@ -279,23 +279,30 @@ def format_to_str(ex, st, fa):
             a = args.fields[argi]
             argi += 1
             if a.ty != 'display':
-                unmodelled('format spec other than {} (Display)')
+                ex.models_used.add('format!: {:?} argument rendered as an arbitrary short string')
+                parts.append(ex.fresh_str(st, 4, 'fmt'))
+                i += 1
+                continue
             v = a.fields[0]
             if isinstance(v, Str):
                 parts.append(v)
             elif isinstance(v, Int):
                 parts.append(int_to_str(ex, st, v))
             elif isinstance(v, Agg) and v.kind == 'struct' and len(v.fields) == 1 and isinstance(v.fields.get(0), Str):
-                parts.append(v.fields[0])   # newtype over String with a forwarding Display impl is NOT assumed: see below
-                unmodelled('Display of struct %s' % v.ty)
+                ex.models_used.add('format!: Display of a non-string/non-integer argument rendered as an arbitrary short string')
+                parts.append(ex.fresh_str(st, 4, 'fmt'))
             else:
-                unmodelled('Display of %r' % (v,))
+                # text of a value the kernel does not inspect (error messages, debug names): arbitrary short string
+                ex.models_used.add('format!: Display of a non-string/non-integer argument rendered as an arbitrary short string')
+                parts.append(ex.fresh_str(st, 4, 'fmt'))
             i += 1
         elif b < 0x80:
             parts.append(str_const(bytes(bs[i + 1:i + 1 + b])))
             i += 1 + b
         else:
-            unmodelled('format template byte 0x%02x' % b)
+            # width / precision / alternate specs: the text is not reconstructed
+            ex.models_used.add('format!: template with width/precision specs rendered as an arbitrary short string')
+            return ex.fresh_str(st, 6, 'fmt')
     return s_concat(parts)
 
 
@@ -1290,4 +1297,307 @@ def m_box_as_ref(ex, st, call):
     b = deref(ex, st, call.args[0])
     if isinstance(b, Agg) and 0 in b.fields and isinstance(b.fields[0], Agg) and isinstance(b.fields[0].fields.get(0), Ref):
         return ex.ret(st, call, b.fields[0].fields[0])
+    return None
+
+
+# ------------------------------------------------------------------------------------------------
+# abstract vectors (AbsVec): iteration is abstracted to ONE arbitrary iteration, predicates to arbitrary results
+# ------------------------------------------------------------------------------------------------
+def _abs_elem(ex, st, v):
+    a = st.alloc(Lazy(v.elem_ty) if v.elem_ty else Opaque('elem'))
+    return Ref(a)
+
+
+@model(r'^slice::iter$|^Vec::iter$|^<&Vec<.*> as IntoIterator>::into_iter$|^<&\[.*\] as IntoIterator>::into_iter$|^<&Rc<\[.*\]> as IntoIterator>::into_iter$')
+def m_abs_iter(ex, st, call):
+    r = call.args[0]
+    v = deref(ex, st, r)
+    if isinstance(v, AbsVec):
+        ex.models_used.add('iteration over an abstract vector = one arbitrary iteration (index < len), then exit')
+        return ex.ret(st, call, Agg('iter', 'AbsIter', {0: v, 1: False}))
+    return None
+
+
+@model(r'^<.* as Iterator>::enumerate$|^Iterator::enumerate$')
+def m_abs_enumerate(ex, st, call):
+    it = call.args[0]
+    if isinstance(it, Agg) and it.ty == 'AbsIter':
+        return ex.ret(st, call, Agg('iter', 'AbsEnumerate', dict(it.fields)))
+    return None
+
+
+@model(r'^<.* as Iterator>::next$')
+def m_abs_next(ex, st, call):
+    r = call.args[0]
+    it = deref(ex, st, r)
+    if not (isinstance(it, Agg) and it.ty in ('AbsIter', 'AbsEnumerate')):
+        return None
+    v, done = it.fields[0], it.fields[1]
+    if done:
+        return ex.ret(st, call, ex.none())
+    out = []
+    s_none = st.clone()
+    out += ex.ret(s_none, call, ex.none())
+    # one arbitrary iteration
+    i = z3.BitVec(fresh_name('iter_index'), 64)
+    if ex.feasible(st, z3.ULT(i, v.n)):
+        st.assume(z3.ULT(i, v.n))
+        ex.store(st, r.addr, r.path, Agg('iter', it.ty, {0: v, 1: True}))
+        elem = _abs_elem(ex, st, v)
+        item = elem if it.ty == 'AbsIter' else Agg('tuple', 'tuple', {0: Int(i, False), 1: elem})
+        out += ex.ret(st, call, ex.some(item))
+    return out
+
+
+@model(r'^<.* as Iterator>::(any|all)$')
+def m_abs_any(ex, st, call):
+    r = call.args[0]
+    it = deref(ex, st, r) if isinstance(r, Ref) else r
+    if isinstance(it, Agg) and it.ty in ('AbsIter', 'AbsEnumerate'):
+        ex.models_used.add('Iterator::any/all over an abstract vector: arbitrary result')
+        return ex.ret(st, call, Bool(z3.Bool(fresh_name('abs_pred'))))
+    return None
+
+
+@model(r'^<.* as Iterator>::(position|find|find_map|rposition)$')
+def m_abs_find(ex, st, call):
+    r = call.args[0]
+    it = deref(ex, st, r) if isinstance(r, Ref) else r
+    if isinstance(it, Agg) and it.ty in ('AbsIter', 'AbsEnumerate'):
+        v = it.fields[0]
+        ex.models_used.add('Iterator::position over an abstract vector: arbitrary index < len or None')
+        if 'position' in call.norm:
+            i = z3.BitVec(fresh_name('pos'), 64)
+            found = z3.Bool(fresh_name('found'))
+            st.assume(z3.Implies(found, z3.ULT(i, v.n)))
+            return ex.ret(st, call, ex.option_ite(found, Int(i, False)))
+    return None
+
+
+@model(r'^slice::get$|^Vec::get$|^slice::first$|^slice::last$|^Vec::first$|^Vec::last$')
+def m_abs_get(ex, st, call):
+    v = deref(ex, st, call.args[0])
+    if isinstance(v, AbsVec):
+        if len(call.args) > 1 and isinstance(call.args[1], Int):
+            ok = z3.ULT(call.args[1].e, v.n)
+        else:
+            ok = v.n != 0
+        return ex.ret(st, call, ex.option_ite(ok, _abs_elem(ex, st, v)))
+    return None
+
+
+def _prioritise(names):
+    front = [x for x in REGISTRY if x[1].__name__ in names]
+    rest = [x for x in REGISTRY if x[1].__name__ not in names]
+    REGISTRY[:] = front + rest
+
+
+_prioritise({'m_abs_iter', 'm_abs_enumerate', 'm_abs_next', 'm_abs_any', 'm_abs_find', 'm_abs_get'})
+
+
+# ------------------------------------------------------------------------------------------------
+# more plumbing for compiler kernels
+# ------------------------------------------------------------------------------------------------
+@model(r'^<Rc<.*> as Deref>::deref$|^<Rc<.*> as AsRef<.*>>::as_ref$|^<Rc<.*> as Borrow<.*>>::borrow$')
+def m_rc_deref(ex, st, call):
+    v = deref(ex, st, call.args[0])
+    if isinstance(v, Agg) and v.kind == 'rc':
+        return ex.ret(st, call, v.fields[0])
+    if isinstance(v, Opaque) and v.ty.startswith('Rc<'):
+        key = ('rc_target', str(v.id))
+        if key not in st.extra:
+            inner = v.ty[3:-1]
+            a = st.alloc(Lazy(inner))
+            st.extra[('cellname', a)] = '$rc.%s' % v.id
+            st.extra[key] = a
+        return ex.ret(st, call, Ref(st.extra[key]))
+    return None
+
+
+@model(r'^<.* as Into<JsString>>::into$|^<JsString as From<.*>>::from$|^JsString::from$|^JsString::new$')
+def m_into_jsstring(ex, st, call):
+    ex.models_used.add('conversion into JsString -> opaque string token')
+    return ex.ret(st, call, Opaque('JsString'))
+
+
+@model(r'^<.* as Iterator>::map$|^<.* as Iterator>::filter$|^<.* as Iterator>::cloned$|^<.* as Iterator>::copied$|^<.* as Iterator>::filter_map$|^<.* as Iterator>::rev$|^<.* as Iterator>::skip$|^<.* as Iterator>::take$')
+def m_abs_adaptor(ex, st, call):
+    it = call.args[0]
+    if isinstance(it, Agg) and it.ty in ('AbsIter', 'AbsEnumerate', 'AbsAdapted'):
+        v = it.fields[0]
+        exact = call.norm.endswith('::map') or call.norm.endswith('::cloned') or call.norm.endswith('::copied') or call.norm.endswith('::rev')
+        if exact:
+            n = v.n
+        else:
+            n = z3.BitVec(fresh_name('adapted_len'), 64)
+            st.assume(z3.ULE(n, v.n))
+        ex.models_used.add('iterator adaptor over an abstract vector: length tracked, elements arbitrary')
+        return ex.ret(st, call, Agg('iter', 'AbsAdapted', {0: AbsVec(n, fresh_name('adapted'), None), 1: False}))
+    return None
+
+
+@model(r'^<.* as Iterator>::collect$|^<.* as Iterator>::count$')
+def m_abs_collect(ex, st, call):
+    it = call.args[0]
+    if isinstance(it, Agg) and it.ty in ('AbsIter', 'AbsEnumerate', 'AbsAdapted'):
+        v = it.fields[0]
+        if call.norm.endswith('count'):
+            return ex.ret(st, call, Int(v.n, False))
+        return ex.ret(st, call, AbsVec(v.n, fresh_name('collected'), None))
+    return None
+
+
+def _has_ref(v, depth=0):
+    if isinstance(v, Ref):
+        return True
+    if depth > 6:
+        return True
+    if isinstance(v, Agg):
+        return any(_has_ref(x, depth + 1) for x in v.fields.values())
+    if isinstance(v, EnumV):
+        return any(_has_ref(x, depth + 1) for pl in v.payload.values() for x in pl.values())
+    if isinstance(v, VecV):
+        return any(_has_ref(x, depth + 1) for x in v.items)
+    return False
+
+
+@model(r'^<.* as Clone>::clone$')
+def m_clone_tree(ex, st, call):
+    v = deref(ex, st, call.args[0])
+    if isinstance(v, (Agg, EnumV, VecV)) and not _has_ref(v):
+        return ex.ret(st, call, v)
+    return None
+
+
+@model(r'^Option::or$')
+def m_opt_or(ex, st, call):
+    a, b = call.args
+    return two_way(ex, st, enum_is(a, 1), lambda s: ex.ret(s, call, a), lambda s: ex.ret(s, call, b))
+
+
+@model(r'^Option::cloned$|^Option::copied$')
+def m_opt_cloned(ex, st, call):
+    o = call.args[0]
+
+    def some(s):
+        return ex.ret(s, call, ex.some(deref(ex, s, opt_payload_or_lazy(ex, s, call, o, 1))))
+    return two_way(ex, st, enum_is(o, 1), some, lambda s: ex.ret(s, call, ex.none()))
+
+
+@model(r'^Option::unwrap_or_else$|^Option::map_or$|^Option::map_or_else$|^Option::is_some_and$|^Option::is_none_or$')
+def m_opt_closure_family(ex, st, call):
+    o = call.args[0]
+    kind = call.norm.split('::')[-1]
+    if kind == 'unwrap_or_else':
+        f = call.args[1]
+        return two_way(ex, st, enum_is(o, 1), lambda s: ex.ret(s, call, opt_payload_or_lazy(ex, s, call, o, 1)),
+                       lambda s: ex.invoke_callable(s, f, [], lambda e_, s2, v: e_.ret(s2, call, v)))
+    if kind == 'map_or':
+        d, f = call.args[1], call.args[2]
+        return two_way(ex, st, enum_is(o, 1),
+                       lambda s: ex.invoke_callable(s, f, [opt_payload_or_lazy(ex, s, call, o, 1)], lambda e_, s2, v: e_.ret(s2, call, v)),
+                       lambda s: ex.ret(s, call, d))
+    if kind == 'map_or_else':
+        d, f = call.args[1], call.args[2]
+        return two_way(ex, st, enum_is(o, 1),
+                       lambda s: ex.invoke_callable(s, f, [opt_payload_or_lazy(ex, s, call, o, 1)], lambda e_, s2, v: e_.ret(s2, call, v)),
+                       lambda s: ex.invoke_callable(s, d, [], lambda e_, s2, v: e_.ret(s2, call, v)))
+    if kind == 'is_some_and':
+        f = call.args[1]
+        return two_way(ex, st, enum_is(o, 1),
+                       lambda s: ex.invoke_callable(s, f, [opt_payload_or_lazy(ex, s, call, o, 1)], lambda e_, s2, v: e_.ret(s2, call, v)),
+                       lambda s: ex.ret(s, call, Bool(False)))
+    if kind == 'is_none_or':
+        f = call.args[1]
+        return two_way(ex, st, enum_is(o, 1),
+                       lambda s: ex.invoke_callable(s, f, [opt_payload_or_lazy(ex, s, call, o, 1)], lambda e_, s2, v: e_.ret(s2, call, v)),
+                       lambda s: ex.ret(s, call, Bool(True)))
+    return None
+
+
+@model(r'^HashMap::get$|^HashMap::get_mut$|^IndexMap::get$')
+def m_map_get(ex, st, call):
+    m = deref(ex, st, call.args[0])
+    if isinstance(m, (AbsVec, Opaque)):
+        ex.models_used.add('HashMap::get on an abstract map: arbitrary Option')
+        found = z3.Bool(fresh_name('map_hit'))
+        if isinstance(m, AbsVec):
+            st.assume(z3.Implies(found, m.n != 0))
+        vty = None
+        if isinstance(m, Opaque):
+            h, a = type_head(m.ty)
+            vty = a[1] if len(a) > 1 else None
+        a_ = st.alloc(Lazy(vty) if vty else Opaque('map value'))
+        return ex.ret(st, call, ex.option_ite(found, Ref(a_)))
+    return None
+
+
+@model(r'^HashMap::contains_key$|^HashSet::contains$')
+def m_map_contains(ex, st, call):
+    m = deref(ex, st, call.args[0])
+    if isinstance(m, (AbsVec, Opaque)):
+        found = z3.Bool(fresh_name('map_has'))
+        if isinstance(m, AbsVec):
+            st.assume(z3.Implies(found, m.n != 0))
+        return ex.ret(st, call, Bool(found))
+    return None
+
+
+_prioritise({'m_abs_adaptor', 'm_abs_collect'})
+
+
+@model(r'^JsString::as_str$|^<JsString as Deref>::deref$|^<JsString as AsRef<str>>::as_ref$|^<JsString as Borrow<str>>::borrow$')
+def m_jsstring_as_str(ex, st, call):
+    v = deref(ex, st, call.args[0])
+    if isinstance(v, Opaque):
+        key = ('jsstr', str(v.id))
+        if key not in st.extra:
+            st.extra[key] = ex.fresh_str(st, 4, 'jsstr')
+            ex.models_used.add('JsString::as_str of an opaque string token: arbitrary short text')
+        return ex.ret(st, call, st.extra[key])
+    if isinstance(v, Str):
+        return ex.ret(st, call, v)
+    return None
+
+
+@model(r'^<(HashSet|HashMap|Vec|VecDeque|IndexMap)<.*> as Default>::default$|^HashMap::new$|^HashSet::new$|^HashMap::default$|^VecDeque::new$')
+def m_collection_default(ex, st, call):
+    if call.norm.startswith('<Vec') or call.norm.startswith('Vec'):
+        return ex.ret(st, call, VecV(()))
+    return ex.ret(st, call, AbsVec(z3.BitVecVal(0, 64), fresh_name('emptymap'), None))
+
+
+@model(r'^HashSet::insert$|^HashMap::insert$')
+def m_map_insert(ex, st, call):
+    r = call.args[0]
+    m = deref(ex, st, r)
+    if isinstance(m, AbsVec):
+        grew = z3.Bool(fresh_name('inserted_new'))
+        n2 = z3.If(grew, m.n + 1, m.n)
+        ex.store(st, r.addr, r.path, AbsVec(n2, (m.tok, 'ins', len(st.events)), m.elem_ty))
+        st.event('map_insert', m.tok, tuple(call.args[1:]))
+        if call.norm.startswith('HashSet'):
+            return ex.ret(st, call, Bool(grew))
+        old = st.alloc(Lazy(m.elem_ty) if m.elem_ty else Opaque('old map value'))
+        return ex.ret(st, call, ex.option_ite(z3.Not(grew), ex.load(st, old)))
+    return None
+
+
+@model(r'^Rc::new$')
+def m_rc_new(ex, st, call):
+    return ex.ret(st, call, Agg('rc', 'Rc', {0: Ref(st.alloc(call.args[0]))}))
+
+
+@model(r'^JsString::is_empty$|^JsString::len$')
+def m_jsstring_len(ex, st, call):
+    v = deref(ex, st, call.args[0])
+    if isinstance(v, Opaque):
+        key = ('jsstr', str(v.id))
+        if key not in st.extra:
+            st.extra[key] = ex.fresh_str(st, 4, 'jsstr')
+            ex.models_used.add('JsString::as_str of an opaque string token: arbitrary short text')
+        s = st.extra[key]
+        if call.norm.endswith('is_empty'):
+            return ex.ret(st, call, Bool(s.n == 0))
+        return ex.ret(st, call, usize(s.n))
     return None
